@@ -56,6 +56,9 @@ def cases(tier, seed):
 
 
 def compare(label, r_il, r_xl, r_z, r_n, r_struct, il, xl, zs, ntr, bad):
+    if r_il is None or r_xl is None:
+        bad.append({'sig': '%s:no-line-axes' % label, 'detail': 'no inline/crossline axes reported (taken for unstructured)'})
+        return
     if not (len(r_il) == len(il) and np.array_equal(np.asarray(r_il, dtype=np.int64), np.asarray(il, dtype=np.int64))):
         bad.append({'sig': '%s:inline-axis-differs' % label, 'detail': 'got %s... want %s...' % (np.asarray(r_il)[:4], np.asarray(il)[:4])})
     if not (len(r_xl) == len(xl) and np.array_equal(np.asarray(r_xl, dtype=np.int64), np.asarray(xl, dtype=np.int64))):
@@ -91,7 +94,8 @@ def run_case(case, ctx):
         gen.make_segy(sgy, data, il, xl, dt_us=case['dt'], t0=case['t0'], fmt=case['fmt'])
         with segyio.open(sgy, strict=False) as f:
             s_il, s_xl, s_z, s_n = np.array(f.ilines), np.array(f.xlines), np.array(f.samples, dtype=np.float64), f.tracecount
-        conv.convert_segy(sgy, out, case['rate'], (4, 4, -1))
+        # thorough detection: square cubes whose inline and crossline numbers agree on first and last trace are outside the heuristic's precondition
+        conv.convert_segy(sgy, out, case['rate'], (4, 4, -1), detection='thorough')
     else:
         s_il, s_xl, s_n = il, xl, nI * nX
         s_z = case['t0'] + (case['dt'] / 1000.0) * np.arange(nZ)
